@@ -158,6 +158,15 @@ impl Submissions {
         log::trace!(waker:?; "adding future waiting on submission slot");
         let shared = &*self.shared;
         lock(&shared.blocked_futures).push(waker);
+        // The waiting futures are woken when a call to `Ring::poll` returns
+        // from the kernel, which (also) submits everything that is queued and
+        // thus makes the room we're waiting for. However if that call waits
+        // for a completion that takes a long time, or never comes, we would
+        // be waiting (for nothing) just as long. Ensure the (next) call to
+        // `Ring::poll` returns as soon as it made room.
+        if let Err(err) = self.wake() {
+            log::debug!("failed to wake a10::Ring for future waiting on submission slot: {err}");
+        }
     }
 
     pub(crate) fn shared(&self) -> &Shared {
